@@ -18,8 +18,8 @@ def backend_specs(v, wd, thorough):
     _run(v, wd, "local-one-transaction", "LocalStore.tla", lc, linv)
     _run(v, wd, "local-pinned-two-transactions", "LocalStore.tla", dict(lc, TwoTxns=True), linv,
          expect="OneChild")
-    ginv = ["ChainWhole", "OneChild", "NoUnpushedServed", "Durable"]
-    fixed = {"FixInitReset": True, "FixInitRemote": True, "FixErrRollback": True}
+    ginv = ["ChainWhole", "OneChild", "NoUnpushedServed", "Durable", "NoFalseRejection"]
+    fixed = {"FixInitReset": True, "FixInitRemote": True, "FixErrRollback": True, "FixOwnPush": True}
     pinned = {k: False for k in fixed}
     gl = dict({"Clones": {"c1"}, "MaxVer": 3, "MaxOps": 4, "MaxFaults": 2, "RemoteMode": False}, **fixed)
     _run(v, wd, "git-local-only-repaired", "GitStore.tla", gl, ginv + ["NoPhantom"])
@@ -30,3 +30,6 @@ def backend_specs(v, wd, thorough):
     _run(v, wd, "git-remote-repaired", "GitStore.tla", gr, ginv, timeout=1500)
     _run(v, wd, "git-remote-pinned", "GitStore.tla", dict(gr, **pinned, MaxFaults=1), ginv,
          expect="NoUnpushedServed")
+    # G7: a push whose reply is lost; before fix b5f755c the call answered "rejected"
+    _run(v, wd, "git-remote-lost-push-reply-unrepaired", "GitStore.tla", dict(gr, FixOwnPush=False, MaxFaults=1),
+         ginv, expect="NoFalseRejection")
